@@ -14,7 +14,8 @@ func init() {
 		ID: "C04",
 		Explanation: "Structural necessary conditions of 'well-formed responses are decoded to exactly what the server said', decided by the same path-sensitive interpretation as C03 applied to the readers: R1 the opcode, result-kind, event-type and schema-change-target dispatches cover exactly the specification's values and reject the rest; R2 every declared error code has the specification's value and a case; " +
 			"R3 for every error code, response kind, metadata flag combination and protocol version the sequence of read primitives equals the body layout of the specification (header prefixes tracing -> warnings -> payload each under its own flag; metadata: flags, count, v4 pk indexes, paging state iff has_more_pages, stop iff no_metadata, global spec iff flag, then columns); R4 [option] ids equal the specification's and each type reads its parameters and returns the matching Go type; R5 reader primitives are big-endian of the right width and agree with the writers; R6 with skip-metadata the rows are decoded with the prepared statement's whole result metadata and the response's paging state." +
-			" R7 every value a parser reads from the frame is stored into the result it returns, never into the per-iteration copy of a range statement; R8 row scanning hands scanColumn the destinations from the running position that is advanced by the count it returns (a tuple column fills several destinations).",
+			" R7 every value a parser reads from the frame is stored into the result it returns, never into the per-iteration copy of a range statement; R8 row scanning hands scanColumn the destinations from the running position that is advanced by the count it returns (a tuple column fills several destinations)." +
+			" R9 = C18.R3 (a received body is decompressed exactly when the header just read says so); R10 scanColumn hands every cell, null ones included, to Unmarshal unless the caller left the destination nil.",
 		NotDecided: "cell-level equality through Scan/MapScan/SliceMap for all values; that decoding consumes the body exactly (the code has no trailing-bytes check); decompression.",
 		Rules: []*Rule{
 			{ID: "C04.R1", Floor: 20, Doc: "dispatch exhaustiveness: response opcodes, result kinds, event types, schema-change targets", Run: c04r1},
